@@ -183,3 +183,237 @@ def find_presence_guard(prog, fn, enum_path, variant, need, adapters=r"::(is_som
     if seen:
         return "not-gating", "presence test on {%s} does not gate %s" % (",".join(sorted(need)), variant)
     return "no-compare", "no presence test on {%s} in %s" % (",".join(sorted(need)), fn.id)
+
+
+# ------------------------------------------------------------------ guard strength: relation + unconditionality
+
+_NEG = {"Eq": "Ne", "Ne": "Eq", "Lt": "Ge", "Ge": "Lt", "Gt": "Le", "Le": "Gt"}
+_FLIP = {"Eq": "Eq", "Ne": "Ne", "Lt": "Gt", "Gt": "Lt", "Le": "Ge", "Ge": "Le"}
+_CANON = {"eq": "Eq", "ne": "Ne", "lt": "Lt", "le": "Le", "gt": "Gt", "ge": "Ge"}
+
+
+def _edge_polarity(fn, cmp_res_local, sw_bb, rej):
+    """Is `rej` the successor taken when the comparison result is TRUE (returns True), FALSE (False) or unknown (None)?"""
+    for sw in switch_edges_on_local(fn, cmp_res_local):
+        if sw["sw"] == sw_bb:
+            if sw["true"] == rej and sw["false"] != rej:
+                return True
+            if sw["false"] == rej and sw["true"] != rej:
+                return False
+    return None
+
+
+def _matching_gates(f, enum_path, variant, need_a, need_b, subst=None):
+    """[(cmp, sw_bb, rej, acc, a_is_first)] for every comparison in f whose operands carry the tokens and which gates the error."""
+    sites = error_sites(f, enum_path, variant)
+    if not sites:
+        return [], sites
+    oks, errs = ok_return_blocks(f)
+    if not oks:
+        from .props.C13 import success_defs
+        oks = success_defs(f)
+
+    def toks(o):
+        t = side_tokens(f, o)
+        if subst:
+            extra = set()
+            for x in t:
+                if x in subst:
+                    extra |= subst[x]
+            t = t | extra
+        return t
+    out = []
+    for cmp in comparisons(f):
+        ta, tb = toks(cmp[2]), toks(cmp[3])
+        fwd = need_a <= ta and need_b <= tb
+        rev = need_a <= tb and need_b <= ta
+        if not (fwd or rev):
+            continue
+        for (sw_bb, rej, acc) in comparison_controls(f, cmp, sites, oks):
+            out.append((cmp, sw_bb, rej, acc, True if (fwd and not rev) else (False if (rev and not fwd) else None)))
+    return out, oks
+
+
+def guard_strength(prog, fn, enum_path, variant, need_a, need_b):
+    """For the gate(s) found by the same search as find_guard: the normalised rejection relation(s) and the branch
+    conditions that decide whether the gate is evaluated at all.
+
+    relation: 'A<op>B' = the error is raised when (side A) <op> (side B) holds, A being the side that carries need_a
+              ('?' when the orientation is ambiguous or the comparison is a cmp()/partial_cmp() call).
+    deciders: switch blocks D (other than the gate's own) with one successor from which a success return is reachable
+              without evaluating any matching gate comparison, and another successor from which success is reachable
+              only through the gate: D decides "validated or not".  Each is described by the kind of its condition:
+              'disc:<adt>' (Option/enum match, loop exhaustion) or 'cmp:<tokens>' / 'call:<callee>' (value tests)."""
+    from .prims import result_inspected
+    found = []
+    host = fn
+    gates, oks = _matching_gates(fn, enum_path, variant, need_a, need_b)
+    if not gates:
+        # helper search, as in find_guard (two levels)
+        frontier = [(fn, None, 0)]
+        seen = {fn.id}
+        while frontier and not gates:
+            f, subst, depth = frontier.pop(0)
+            if depth >= 2:
+                continue
+            for bi, t in f.calls():
+                callee = f.callee_of(t) or ""
+                h = prog.fns.get(callee)
+                if h is None or h.id in seen or f.blocks[bi]["cl"] or not h.crate.startswith(fn.crate.split("_")[0]):
+                    continue
+                if not result_inspected(f, bi)[0]:
+                    continue
+                seen.add(h.id)
+                sub = {}
+                for ai, a in enumerate(t["args"]):
+                    tk = side_tokens(f, a)
+                    if subst:
+                        extra = set()
+                        for x in tk:
+                            if x in subst:
+                                extra |= subst[x]
+                        tk = tk | extra
+                    sub["p:%d" % (ai + 1)] = tk
+                g2, oks2 = _matching_gates(h, enum_path, variant, need_a, need_b, sub)
+                if g2:
+                    gates, oks, host = g2, oks2, h
+                    break
+                frontier.append((h, sub, depth + 1))
+    if not gates:
+        return None
+    rels = set()
+    for (cmp, sw_bb, rej, acc, a_first) in gates:
+        kind = _CANON.get(cmp[1], cmp[1])
+        if kind not in _NEG:
+            rels.add("A?B")
+            continue
+        pol = _edge_polarity(host, cmp[4], sw_bb, rej)
+        if pol is None:
+            rels.add("A?B")
+            continue
+        k = kind if pol else _NEG[kind]
+        if k in ("Eq", "Ne"):
+            rels.add("A%sB" % k)
+        elif a_first is None:
+            rels.add("A%s|%sB" % tuple(sorted((k, _FLIP[k]))))
+        else:
+            rels.add("A%sB" % (k if a_first else _FLIP[k]))
+    # deciders
+    f = host
+    cblocks = {g[0][0] for g in gates}
+    gate_sws = {g[1] for g in gates}
+    n = len(f.blocks)
+    preds = f.preds()
+    # A = blocks from which an Ok return is reachable without entering a gate comparison block
+    A = set()
+    stack = [b for b in oks if b not in cblocks]
+    A.update(stack)
+    while stack:
+        b = stack.pop()
+        for p in preds[b]:
+            if p in A or p in cblocks:
+                continue
+            A.add(p)
+            stack.append(p)
+    # OKR = blocks from which an Ok return is reachable at all
+    OKR = set(oks)
+    stack = list(oks)
+    while stack:
+        b = stack.pop()
+        for p in preds[b]:
+            if p not in OKR:
+                OKR.add(p)
+                stack.append(p)
+    reach0 = f.reachable([0])
+    deciders = []
+    for b in sorted(reach0):
+        t = f.blocks[b]["t"]
+        if t["t"] != "sw" or b in gate_sws or f.blocks[b]["cl"]:
+            continue
+        succs = set(f.succ(b))
+        if len(succs) < 2:
+            continue
+        skip = [s for s in succs if s in A]
+        checked = [s for s in succs if s not in A and s in OKR]
+        if skip and checked:
+            deciders.append((b, describe_condition(f, b)))
+    return {"relations": rels, "deciders": deciders, "host": host}
+
+
+def describe_condition(fn, sw_bb):
+    """Refactor-tolerant description of what a SwitchInt tests."""
+    t = fn.blocks[sw_bb]["t"]
+    p = op_place(t["o"])
+    if p is None:
+        return "const"
+    l = p[0]
+    for d in fn.defs().get(l, ()):
+        if d[0] == "assign":
+            rv = d[4]
+            if rv["r"] == "disc":
+                return "disc:" + str(rv.get("adt", "")).rsplit("::", 1)[-1]
+            if rv["r"] == "bin":
+                ta, tb = sorted(side_tokens(fn, rv["a"])), sorted(side_tokens(fn, rv["b"]))
+                return "cmp:%s:%s~%s" % (rv["op"], ",".join(ta), ",".join(tb))
+            if rv["r"] in ("use", "un"):
+                o = rv["o"]
+                q = op_place(o)
+                if q is not None and not q[1]:
+                    # copy / negation of another local: describe that one
+                    for d2 in fn.defs().get(q[0], ()):
+                        if d2[0] == "call":
+                            return "call:" + (fn.callee_of(d2[2]) or "?").rsplit("::", 1)[-1]
+                        if d2[0] == "assign" and d2[4]["r"] == "bin":
+                            rv2 = d2[4]
+                            return "cmp:%s:%s~%s" % (rv2["op"], ",".join(sorted(side_tokens(fn, rv2["a"]))), ",".join(sorted(side_tokens(fn, rv2["b"]))))
+                        if d2[0] == "assign" and d2[4]["r"] == "disc":
+                            return "disc:" + str(d2[4].get("adt", "")).rsplit("::", 1)[-1]
+                toks = sorted(side_tokens(fn, o))
+                return "val:" + ",".join(toks)
+        elif d[0] == "call":
+            callee = (fn.callee_of(d[2]) or "?").rsplit("::", 1)[-1]
+            if callee in ("eq", "ne", "lt", "le", "gt", "ge"):
+                a = d[2]["args"]
+                return "cmp:%s:%s~%s" % (callee, ",".join(sorted(side_tokens(fn, a[0]))), ",".join(sorted(side_tokens(fn, a[1]))))
+            return "call:" + callee
+        elif d[0] == "param":
+            return "param:%d" % d[1]
+    return "other"
+
+
+def coarse_condition(desc):
+    """Coarsen a condition description to what a behaviour-preserving edit leaves alone: the workspace fields read on
+    either side, whether a length is involved, the callee name."""
+    if desc.startswith("cmp:"):
+        _, op, rest = desc.split(":", 2)
+        toks = set(x for side in rest.split("~") for x in side.split(",") if x)
+        fl = sorted(t for t in toks if t.startswith("f:"))
+        return "cmp:" + ",".join(fl) + ("|len" if "c:len" in toks else "")
+    if desc.startswith("val:"):
+        toks = [x for x in desc[4:].split(",") if x.startswith(("f:", "c:"))]
+        return "val:" + ",".join(sorted(toks))
+    return desc
+
+
+def check_strength(rep, rule, key, pid, prog, fn, enum_path, variant, need_a, need_b):
+    """Two more instances for a gate that find_guard accepted:
+    <key>:relation       the rejection relation between the two sides is the one confirmed on the pinned tree
+                         (`!=` turned into `<`, or a second weaker comparison of the same values gating the same error);
+    <key>:unconditional  no NEW value test (comparison / bool call) decides whether the gate is evaluated at all before a
+                         success return — Option/enum matches and loop exhaustion are not value tests.  (A validation that
+                         became conditional on some other field is a weakened validation.)"""
+    from .baselines import baseline
+    gs = guard_strength(prog, fn, enum_path, variant, set(need_a), set(need_b))
+    if gs is None:
+        return
+    rels = sorted(gs["relations"])
+    frozen = baseline("%s.gate-relation.%s" % (pid, key), rels)
+    extra = [r for r in rels if r not in frozen and r != "A?B"]
+    rep.check(not extra, rule, key + ":relation", "rejects when %s" % "/".join(rels),
+              "the rejection relation of this gate changed: now %s, confirmed %s (weakened or altered comparison)" % (rels, frozen), site=gs["host"].loc())
+    dec = sorted({coarse_condition(d) for b, d in gs["deciders"] if not d.startswith("disc:")})
+    frozen_d = baseline("%s.gate-deciders.%s" % (pid, key), dec)
+    new = [d for d in dec if d not in frozen_d]
+    where = [gs["host"].block_line(b) for b, d in gs["deciders"] if coarse_condition(d) in new]
+    rep.check(not new, rule, key + ":unconditional", "no new value test decides whether the gate runs (%d structural deciders)" % len(gs["deciders"]),
+              "the gate is now skipped depending on %s (line %s): a success return is reachable without the comparison" % (new, where), site=gs["host"].loc())
